@@ -228,7 +228,10 @@ type client struct {
 	sconn    onet.StreamingConn
 	raw      *websocket.Conn
 	finished bool // read a close frame or an error
-	left     bool
+	mu       sync.Mutex
+	left     bool      // the client closed / dropped the connection (under mu)
+	frames   chan bool // one token per data frame read; closed after a close frame / error
+	note     string
 }
 
 var garbage = []byte{0x08} // field 1, varint, value missing: does not decode
@@ -367,57 +370,76 @@ func (c *child) runScenario(sc *scenario) endInfo {
 		cl[i].raw = conn
 		return true
 	}
-	recv := func(i int, d time.Duration) bool { // false: nothing more to read
+	// One reading goroutine per client: it stamps every frame when it arrives and
+	// hands it to the driver. A driver-side timeout therefore never damages the
+	// connection (gorilla connections are unusable after a read deadline).
+	startReader := func(i int) {
 		k := cl[i]
-		if k.finished || k.left {
+		k.frames = make(chan bool, 4096)
+		go func() {
+			for {
+				var r Resp
+				var err error
+				if isOnet(i) {
+					err = k.sconn.ReadMessageWithOpts(&r, onet.StreamingReadOpts{Deadline: time.Now().Add(10 * time.Minute)})
+				} else {
+					var buf []byte
+					_, buf, err = k.raw.ReadMessage()
+					if err == nil {
+						err = protobuf.Decode(buf, &r)
+					}
+				}
+				k.mu.Lock()
+				if k.left {
+					// the client itself closed the connection: nothing is observed any more
+					k.mu.Unlock()
+					close(k.frames)
+					return
+				}
+				if err == nil {
+					w.stamp(i, "ORecv", int(r.Chan), int(r.Val))
+					k.mu.Unlock()
+					k.frames <- true
+					continue
+				}
+				switch cc := closeCode(err); cc {
+				case "CNormal", "CProto":
+					w.stamp(i, "OClosed", map[string]int{"CNormal": 0, "CProto": 1}[cc], 0)
+				default:
+					w.stamp(i, "OAbnormal", 0, 0)
+					k.note += " read:" + cc
+				}
+				k.mu.Unlock()
+				close(k.frames)
+				return
+			}
+		}()
+	}
+	recv := func(i int, d time.Duration) bool { // true: a data frame was read
+		k := cl[i]
+		if k.finished || k.left || k.frames == nil {
 			return false
 		}
-		var r Resp
-		var err error
-		if isOnet(i) {
-			err = k.sconn.ReadMessageWithOpts(&r, onet.StreamingReadOpts{Deadline: time.Now().Add(d)})
-		} else {
-			k.raw.SetReadDeadline(time.Now().Add(d))
-			var buf []byte
-			_, buf, err = k.raw.ReadMessage()
-			if err == nil {
-				err = protobuf.Decode(buf, &r)
+		select {
+		case ok := <-k.frames:
+			if !ok {
+				k.finished = true
 			}
-		}
-		if err == nil {
-			w.stamp(i, "ORecv", int(r.Chan), int(r.Val))
-			return true
-		}
-		var ne net.Error
-		if xerrors.As(err, &ne) && ne.Timeout() {
+			return ok
+		case <-time.After(d):
 			info.Timeouts++
-			// a gorilla connection is unusable after a read timeout: the client leaves
-			w.stamp(i, "OLeave", 0, 0)
-			k.left = true
-			if k.raw != nil {
-				k.raw.Close()
-			} else if k.onetc != nil {
-				k.onetc.Close()
-			}
 			return false
 		}
-		k.finished = true
-		switch cc := closeCode(err); cc {
-		case "CNormal", "CProto":
-			w.stamp(i, "OClosed", map[string]int{"CNormal": 0, "CProto": 1}[cc], 0)
-		default:
-			w.stamp(i, "OAbnormal", 0, 0)
-			info.Note += " read:" + cc
-		}
-		return false
 	}
 	leave := func(i int, abrupt bool) {
 		k := cl[i]
 		if k.left {
 			return
 		}
+		k.mu.Lock()
 		k.left = true
 		w.stamp(i, "OLeave", 0, 0)
+		k.mu.Unlock()
 		if isOnet(i) {
 			if k.onetc != nil {
 				k.onetc.Close()
@@ -463,12 +485,14 @@ func (c *child) runScenario(sc *scenario) endInfo {
 				if err := cl[i].raw.WriteMessage(websocket.BinaryMessage, garbage); err != nil {
 					info.Discard = true
 				}
+				startReader(i)
 				return
 			}
 			if err := sendReq(i, &Req{Stream: ids[i], Chan: int64(o.C)}); err != nil {
 				info.Discard = true
 				return
 			}
+			startReader(i)
 			if !ss[i].waitCond(5*time.Second, func() bool { return ss[i].returned >= 1 }) {
 				info.Discard = true
 			}
@@ -650,6 +674,11 @@ func (c *child) runScenario(sc *scenario) endInfo {
 		}
 	}
 	settle()
+	for i := 0; i <= n; i++ {
+		cl[i].mu.Lock()
+		info.Note += cl[i].note
+		cl[i].mu.Unlock()
+	}
 	info.Leaked = census() - c.base
 	if info.Leaked < 0 {
 		info.Leaked = 0
